@@ -116,6 +116,20 @@ nodeLoop:
 			continue nodeLoop
 		}
 
+		// A tagged switch must not list the same constant twice; an if-else chain may test it twice.
+		seen := map[string]bool{}
+		for item := ifstmt; item != nil; {
+			for _, binexpr := range m[item.Cond] {
+				if tv, ok := pass.TypesInfo.Types[binexpr.Y]; ok && tv.Value != nil {
+					if seen[tv.Value.ExactString()] {
+						continue nodeLoop
+					}
+					seen[tv.Value.ExactString()] = true
+				}
+			}
+			item, _ = item.Else.(*ast.IfStmt)
+		}
+
 		// We require at least two 'if' to make this suggestion, to
 		// avoid clutter in the editor.
 		if len(m) < 2 {
